@@ -366,7 +366,7 @@ pub fn run(ctx: &Ctx, findings: &Findings) -> PropReport {
     } else {
         let n = ctx.cases(20000, 400000);
         subs.push(drive(ctx, findings, "history", RULE, n, || case_strategy(ctx.tier.pick(14, 22)), &check_case));
-        subs.push(drive_enum(ctx, findings, "enumerated", crate::engines::brokersim::RULE_ENUM, crate::engines::brokersim::enumerated_cases(ctx.tier.pick(3, 5)), true, &check_case));
+        subs.push(drive_enum(ctx, findings, "enumerated", crate::engines::brokersim::RULE_ENUM, crate::engines::brokersim::enumerated_cases(ctx.tier.pick(3, 4)), true, &check_case));
     }
     let _ = BTreeMap::<u8, u8>::new();
     PropReport {
